@@ -1314,6 +1314,84 @@ macro_rules! dispatch_walk {
 }
 for_agents! { dispatch_walk }
 
+/// The peer-sharing exchange for one requested amount (every value of the word8 is a legal request, 0 included): the
+/// server must be in `Busy` after the request and back in `Idle` after its reply; the client likewise.
+fn peersharing_amount(s: &Session, amount: &u8, obs: &mut Obs) -> Result<(), Fail> {
+    const HINTS: [&str; 7] = ["amount:0", "amount:1", "amount:2", "amount:3", "amount:127", "amount:128", "amount:255"];
+    let Some(hint) = HINTS.iter().copied().find(|h| h.strip_prefix("amount:").and_then(|n| n.parse::<u8>().ok()) == Some(*amount)) else {
+        obs.discard();
+        return Ok(());
+    };
+    let rt = net::rt_current();
+    let r: Result<Result<(), Fail>, Trouble> = rt.block_on(async move {
+        // server side
+        let mut rig = Rig::<ag::PsServer>::new()?;
+        rig.ctx.hint = hint;
+        let res: Result<Result<(), Fail>, Trouble> = async {
+            for round in 0..2 {
+                rig.inject(&Inj { kind: "ShareRequest", bad: None }).await?;
+                let ctx = Ctx { cookie: rig.ctx.cookie, hint };
+                let out = rig.agent.op("recv_share_request", &ctx).await;
+                let st = rig.agent.state();
+                if !matches!(out, OpOut::Accepted) || st != "Busy" {
+                    return Ok(Err(Fail { sig: "c23:peersharing:server:Idle:ShareRequest:not-busy-after-request".into(), msg: format!("{hint} round {round}: recv_share_request -> {out:?}, state {st} (specification: StBusy)") }));
+                }
+                let out = rig.agent.op("send_peer_addresses", &ctx).await;
+                let st = rig.agent.state();
+                if !matches!(out, OpOut::Accepted) || st != "Idle" {
+                    return Ok(Err(Fail { sig: "c23:peersharing:server:Busy:SharePeers:reply-refused".into(), msg: format!("{hint} round {round}: send_peer_addresses -> {out:?}, state {st} (specification: StIdle)") }));
+                }
+                let _ = rig.wire().await?;
+            }
+            Ok(Ok(()))
+        }
+        .await;
+        rig.stop().await;
+        match res {
+            Ok(Ok(())) => {}
+            other => return other,
+        }
+        // client side
+        let mut rig = Rig::<ag::PsClient>::new()?;
+        rig.ctx.hint = hint;
+        let res: Result<Result<(), Fail>, Trouble> = async {
+            for round in 0..2 {
+                let ctx = Ctx { cookie: rig.ctx.cookie, hint };
+                let out = rig.agent.op("send_share_request", &ctx).await;
+                let st = rig.agent.state();
+                if !matches!(out, OpOut::Accepted) || st != "Busy" {
+                    return Ok(Err(Fail { sig: "c23:peersharing:client:Idle:ShareRequest:not-busy-after-request".into(), msg: format!("{hint} round {round}: send_share_request -> {out:?}, state {st} (specification: StBusy)") }));
+                }
+                let _ = rig.wire().await?;
+                rig.inject(&Inj { kind: "SharePeers", bad: None }).await?;
+                let out = rig.agent.op("recv_peer_addresses", &ctx).await;
+                let st = rig.agent.state();
+                if !matches!(out, OpOut::Accepted) || st != "Idle" {
+                    return Ok(Err(Fail { sig: "c23:peersharing:client:Busy:SharePeers:reply-refused".into(), msg: format!("{hint} round {round}: recv_peer_addresses -> {out:?}, state {st} (specification: StIdle)") }));
+                }
+            }
+            Ok(Ok(()))
+        }
+        .await;
+        rig.stop().await;
+        res
+    });
+    drop(rt);
+    obs.class(format!("peersharing:{hint}"));
+    match r {
+        Err(tr) => {
+            s.health(false, &format!("peersharing amount case: {tr}"));
+            obs.discard();
+            Ok(())
+        }
+        Ok(Err(f)) => Err(f),
+        Ok(Ok(())) => {
+            obs.nontrivial();
+            Ok(())
+        }
+    }
+}
+
 /// A reply that is legal by its kind but wrong in its content: the keep-alive server answers with another cookie than
 /// the one requested. The client must report an error *and stay where it was* (state `Server`, no agency), as the
 /// statement says for everything it rejects.
@@ -1408,6 +1486,7 @@ pub fn run(s: &Session) {
     s.note("triples", serde_json::json!(all.len()));
     s.foreach("triples", all, true, |t, obs| dispatch_triple(s, t, obs));
     s.foreach("keepalive-cookie-mismatch", vec![0u16, 1, 2, 0x00ff, 0x0100, 0x8000, 0xffff], true, |d, obs| keepalive_cookie_mismatch(s, d, obs));
+    s.foreach("peersharing-amounts", vec![0u8, 1, 2, 3, 127, 128, 255], true, |a, obs| peersharing_amount(s, a, obs));
     let payload = collect_payload_cases();
     s.note("payload_cases", serde_json::json!(payload.len()));
     s.foreach("payload-refusals", payload, true, |c, obs| dispatch_payload(s, c, obs));
